@@ -661,7 +661,8 @@ def plot_generated_lis(ctx, k, cap, single_record=False):
             rec.case(('genplot', _h(data), fid), bool(n), classes=classes,
                      sample={'source': 'generated LIS', 'film': repr(fid), 'gcod': repr(fm.gcod), 'scale': fm.scale, 'frames': len(m.x), 'polylines': n,
                              'curves': wit['curves'][:4]})
-            if n == 0 and cap['n'] < 20:
+            # only the reference curve (an in-scale constant) is certain to leave a polyline: other shapes may be absent throughout
+            if n == 0 and any(c.outp == b'REF ' for c in curves_here) and cap['n'] < 20:
                 cap['n'] += 1
                 rec.violation('lis_produces_plot', 'no-curve', 'plot of film %r has no curve polyline' % fid, wit)
             try:
